@@ -47,6 +47,9 @@ impl Ctx {
     pub fn is_main(&self) -> bool {
         self.stage == "chk" || self.stage == "rel"
     }
+    pub fn miri(&self) -> bool {
+        self.stage == "miri"
+    }
 }
 
 fn arg_val(args: &[String], name: &str) -> Option<String> {
@@ -78,6 +81,9 @@ fn main() {
             let stage = arg_val(&args, "--stage").unwrap_or_else(|| "chk".into());
             let scale_pct: u64 = arg_val(&args, "--scale").and_then(|s| s.parse().ok()).unwrap_or(100);
             let out = arg_val(&args, "--out");
+            let part: usize = arg_val(&args, "--part").and_then(|s| s.parse().ok()).unwrap_or(0);
+            let parts: usize = arg_val(&args, "--parts").and_then(|s| s.parse().ok()).unwrap_or(1);
+            util::set_partition(part, parts);
             let ctx = Ctx { tier, seed, threads, stage: stage.clone(), scale_pct };
             if let Err(e) = model::tables::self_check() {
                 eprintln!("model table self-check failed: {}", e);
@@ -117,6 +123,9 @@ fn main() {
             let j = J::parse(&txt).expect("parse replay");
             let code = mon::replay(&j);
             std::process::exit(code);
+        }
+        "digest17" => {
+            std::process::exit(mon::c17::digest_main(&args[2..]));
         }
         "worker" => {
             let code = mon::c01::worker_main(&args[2..]);
